@@ -79,6 +79,8 @@ type c20pool struct {
 		Forward(...tensor.Tensor) (tensor.Tensor, error)
 	}
 	mse  *losses.MSE
+	bce  *losses.BCE
+	ce   *losses.CE
 	opt  *optimizers.SGD // one optimizer object shared by all goroutines, each stepping only its private tensors
 	pair [2]int          // two same-shape untracked pool tensors used in both operand orders
 	res  []int           // pool tensors that are results of earlier operations
@@ -211,6 +213,7 @@ func c20BuildPool(r *rand.Rand) (*c20pool, error) {
 	sm, _ := activations.NewSoftmax(&activations.SoftmaxConfig{Dim: 1})
 	p.acts = append(p.acts, activations.NewRelu(), activations.NewLeakyRelu(nil), activations.NewSigmoid(), activations.NewTanh(), sm)
 	p.mse = losses.NewMSE()
+	p.bce, p.ce = losses.NewBCE(), losses.NewCE()
 	p.opt = optimizers.NewSGD(&optimizers.SGDConfig{LearningRate: 0.25})
 	p.idx = []tensor.Range{{From: 0, To: 0}, {From: 1, To: 3}}
 	return p, nil
@@ -303,6 +306,12 @@ func c20GenJobs(r *rand.Rand, p *c20pool, n int) []c20job {
 			jobs = append(jobs, c20job{kind: "opposite-order", seed: r.Int63(), a: p.pair[0], b: p.pair[1]})
 		case q == 6 && r.Intn(2) == 0:
 			jobs = append(jobs, c20job{kind: "shape-ops-on-a-shared-result", a: p.res[r.Intn(len(p.res))]})
+		case q == 6 && r.Intn(3) == 0:
+			jobs = append(jobs, c20job{kind: "refused-ops", seed: r.Int63(), a: r.Intn(np)})
+		case q == 6 && r.Intn(3) == 0:
+			jobs = append(jobs, c20job{kind: "private-matmul", seed: r.Int63()})
+		case q == 6 && r.Intn(2) == 0:
+			jobs = append(jobs, c20job{kind: "shared-loss", seed: r.Int63()})
 		case q == 6:
 			jobs = append(jobs, c20job{kind: "layer", seed: r.Int63()})
 		case q == 7 || q == 8:
@@ -653,6 +662,104 @@ func c20Run(p *c20pool, jobs []c20job, inject *rand.Rand, start time.Time, rec *
 			if e := hashBits(&out, l); e != nil {
 				return out, e
 			}
+		case "refused-ops": // operations the library must REFUSE (incompatible shapes, bad arguments), made concurrently with sizes that differ per goroutine: the error each one gets is its own
+			r := rand.New(rand.NewSource(j.seed))
+			for rep := 0; rep < 4; rep++ {
+				n := 5 + r.Intn(40)
+				priv := rt.MustLeaf(RandT(r, []int{n}, -1, 1), false)
+				other := rt.MustLeaf(RandT(r, []int{n + 1 + r.Intn(3)}, -1, 1), false)
+				var err error
+				what := ""
+				if e := span("refused-operation", []int{j.a}, func() error {
+					switch r.Intn(6) {
+					case 0:
+						what = "Add of incompatible lengths"
+						_, err = priv.Add(other)
+					case 1:
+						what = "Eq of incompatible lengths"
+						_, err = other.Eq(priv)
+					case 2:
+						what = "Broadcast to an incompatible shape"
+						_, err = priv.Broadcast([]int{2, n + 1})
+					case 3:
+						what = "Reshape to another element count"
+						_, err = priv.Reshape([]int{n + 2})
+					case 4:
+						what = "shared tensor against a private one of incompatible shape"
+						_, err = p.ts[j.a].Mul(rt.MustLeaf(RandT(r, []int{7, 11 + r.Intn(5)}, -1, 1), false))
+					default:
+						what = "Slice beyond the end"
+						_, err = priv.Slice([]tensor.Range{{From: 0, To: n + 1 + r.Intn(4)}})
+					}
+					return nil
+				}); e != nil {
+					return out, e
+				}
+				if err == nil {
+					if what != "shared tensor against a private one of incompatible shape" {
+						return out, fmt.Errorf("%s (length %d) was accepted", what, n)
+					}
+					out = append(out, 0)
+					continue
+				}
+				h := uint64(14695981039346656037)
+				for _, c := range []byte(err.Error()) {
+					h = (h ^ uint64(c)) * 1099511628211
+				}
+				out = append(out, h)
+			}
+		case "private-matmul": // products of PRIVATE matrices with real entries and contractions of 4..9 terms: the rounding of a sum must not depend on what other goroutines do
+			r := rand.New(rand.NewSource(j.seed))
+			m, n, kk := 1+r.Intn(4), 4+r.Intn(6), 1+r.Intn(4)
+			if r.Intn(2) == 0 { // large enough for several goroutines to be inside the kernel at the same moment
+				m, n, kk = 8+r.Intn(17), 16+r.Intn(49), 8+r.Intn(17)
+			}
+			a := rt.MustLeaf(RandT(r, []int{m, n}, -3, 3), false)
+			b := rt.MustLeaf(RandT(r, []int{n, kk}, -3, 3), r.Intn(2) == 0)
+			v := rt.MustLeaf(RandT(r, []int{m, n}, -3, 3), false)
+			var y, d tensor.Tensor
+			if e := span("private-MatMul/Dot", []int{-1}, func() (err error) {
+				if y, err = a.MatMul(b); err == nil {
+					d, err = a.Dot(v)
+				}
+				return err
+			}); e != nil {
+				return out, e
+			}
+			if e := hashBits(&out, y); e != nil {
+				return out, e
+			}
+			if e := hashBits(&out, d); e != nil {
+				return out, e
+			}
+		case "shared-loss": // ONE BCE / CE / MSE object evaluated by every goroutine on PRIVATE batches whose shapes differ between goroutines and calls
+			r := rand.New(rand.NewSource(j.seed))
+			for rep := 0; rep < 3; rep++ {
+				kind := []string{"bce", "ce", "mse"}[r.Intn(3)]
+				shape := []int{1 + r.Intn(7)}
+				if kind == "ce" {
+					shape = []int{1 + r.Intn(4), 1 + r.Intn(4)}
+				}
+				yp := rt.MustLeaf(RandT(r, shape, 0.05, 0.95), r.Intn(2) == 0)
+				yt := rt.MustLeaf(RandT(r, shape, 0, 1), false)
+				var l tensor.Tensor
+				if e := span("shared-loss-object/"+kind, []int{-1}, func() (err error) {
+					switch kind {
+					case "bce":
+						l, err = p.bce.Compute(yp, yt)
+					case "ce":
+						l, err = p.ce.Compute(yp, yt)
+					default:
+						l, err = p.mse.Compute(yp, yt)
+					}
+					return err
+				}); e != nil {
+					return out, e
+				}
+				if e := hashBits(&out, l); e != nil {
+					return out, e
+				}
+			}
 		case "private-backprop": // private tracked leaves + a shared UNTRACKED tensor, back-propagated
 			r := rand.New(rand.NewSource(j.seed))
 			u := j.a
@@ -799,7 +906,8 @@ func c20Storm(k *fw.K, G int) {
 	for pool.kinds[a] != "large-untracked-leaf" {
 		a++
 	}
-	jobs := []c20job{{kind: "reducers", a: a}, {kind: "layer", seed: 7}, {kind: "reducers", a: 3}, {kind: "layer", seed: 11}}
+	jobs := []c20job{{kind: "reducers", a: a}, {kind: "layer", seed: 7}, {kind: "private-matmul", seed: 4}, {kind: "reducers", a: 3}, {kind: "layer", seed: 11},
+		{kind: "private-matmul", seed: 21}, {kind: "shared-loss", seed: 5}, {kind: "refused-ops", seed: 9, a: 3}}
 	want, err := c20Run(pool, jobs, nil, time.Now(), nil)
 	if err != nil {
 		k.Failf("sequential reference run failed: %v", err)
@@ -892,6 +1000,7 @@ func c20FirstUse(k *fw.K) {
 }
 
 func runC20(c *fw.Ctx) {
+	rt.NoSharedConf.Store(true) // tensors are created from several goroutines here
 	c20Canary()
 	for _, G := range []int{128, 256} {
 		G := G
